@@ -35,6 +35,7 @@ func runC13(c *Ctx) {
 
 	const r2 = "C13.R2 syncCancel state machine"
 	ruleCancelMachine(c, r2)
+	ruleCalleeGone(c, r2)
 	c.R.Floor(r2, 20)
 
 	const r3 = "C13.R3 timeout forwarding versus router timer"
@@ -66,6 +67,9 @@ func ruleTimeout(c *Ctx, r3 string) {
 	c.Reach(r3, sCall, "router-handled timeout always arms the timer once the INVOCATION is sent", ReachSpec{
 		FromEdge: &ir.Clause{Name: "INVOCATION sent", Edges: []ir.EdgeSpec{T(`^\(select\{send:.*<-new\(wamp\.Invocation\);default\}#0 == 0\)$`)}},
 		Stop:     goTimer, Cut: []ir.Clause{clause("no router timeout", F(`^\(0 < (phi\(0\|`+tmo+`\)|`+tmo+`)\)$`)), clause("the call already has its timer (later message of a progressive call invocation)", F(`^\(phi\(.*\)\.timerCancel == nil\)$`))}, Target: "EXIT", Want: false})
+	// forward_timeout is the registration's own option: fixed when the registration is created, a callee joining a
+	// shared registration does not change what the earlier callees agreed to
+	c.AllMatch(r3, dlr+"syncRegister", "forward_timeout recorded only when the registration is created", `^store:.*\.&forwardTimeout=`, `^store:new\(router\.registration\)\.&forwardTimeout=%forwardTimeout$`, 1)
 	t2 := sCall + "$1$1"
 	c.Has(r3, t2, "timer posts killnowait / wamp.error.timeout", `^call:router\.\(\*dealer\)\.syncCancel\(\^d, \^caller, new\(wamp\.Cancel\), "killnowait", "wamp\.error\.timeout", `, 1)
 	c.Guard(r3, sCall+"$1", "timer acts only on expiry", `^send:\^d\.actionChan<-`, 1,
